@@ -62,6 +62,9 @@ class Outcome:
         os.makedirs(REPLAY_DIR, exist_ok=True)
         wall = time.time() - self.t0
         unmet = [(n, o, r) for (n, o, r) in self.minima if o < r]
+        # three-valued verdicts: a run that lost a large part of its executions to inconclusive shards is undecided, not "held"
+        if len(self.inconclusive) >= 10 and len(self.inconclusive) * 3 > max(1, self.evaluations):
+            unmet.append(("conclusive_share (inconclusive=%d of %d executions)" % (len(self.inconclusive), self.evaluations), 0, 1))
         # group violations by signature; one replay file per signature
         by_sig = {}
         for v in self.violations:
